@@ -207,6 +207,16 @@ type l2Out struct {
 }
 
 func runLayout(cs *l2Case, li int, text string) (l2Out, error) {
+	outs, err := runLayoutTexts(cs, li, []string{text})
+	if len(outs) == 0 {
+		return l2Out{}, err
+	}
+	return outs[0], err
+}
+
+// runLayoutTexts stores the events under layout li in a fresh worker and asks the queries one after
+// the other (one element of the result per query answered).
+func runLayoutTexts(cs *l2Case, li int, texts []string) ([]l2Out, error) {
 	evs := tableEvents(cs.Table)
 	if cs.Reverse[li] {
 		rev := make([]*model.Event, len(evs))
@@ -215,7 +225,7 @@ func runLayout(cs *l2Case, li int, text string) (l2Out, error) {
 		}
 		evs = rev
 	}
-	var out l2Out
+	var outs []l2Out
 	err := pt.WithWorker(sut.Options{}, func(c *sut.Client) error {
 		if err := ingestLayout(c, evs, cs.Layouts[li]); err != nil {
 			// ingest is not what this property is about: any trouble there is environment trouble
@@ -227,33 +237,36 @@ func runLayout(cs *l2Case, li int, text string) (l2Out, error) {
 			}
 			return pt.Inconclusivef("ingest: %v", err)
 		}
-		sr, err := c.Search(sut.Query{Index: l2Index, Text: text, Start: baseTs - 10_000_000, End: baseTs + 10_000_000,
-			Size: len(evs)*6 + 100, IncludeNulls: true})
-		if err != nil {
-			if errors.Is(err, sut.ErrWorkerDied) {
-				return fmt.Errorf("the server process died while answering the query: %s", pt.CrashDetail(c))
+		for _, text := range texts {
+			var out l2Out
+			sr, err := c.Search(sut.Query{Index: l2Index, Text: text, Start: baseTs - 10_000_000, End: baseTs + 10_000_000,
+				Size: len(evs)*6 + 100, IncludeNulls: true})
+			if err != nil {
+				if errors.Is(err, sut.ErrWorkerDied) {
+					return fmt.Errorf("the server process died while answering the query %s: %s", text, pt.CrashDetail(c))
+				}
+				if errors.Is(err, sut.ErrTimeout) {
+					return pt.Inconclusivef("query timed out")
+				}
+				var oe *sut.OpError
+				if errors.As(err, &oe) && strings.HasPrefix(oe.Msg, "PANIC") {
+					return fmt.Errorf("the query %s panicked: %s", text, firstLines(oe.Msg, 30))
+				}
+				return pt.Inconclusivef("search call failed: %v", err)
 			}
-			if errors.Is(err, sut.ErrTimeout) {
-				return pt.Inconclusivef("query timed out")
+			switch {
+			case sr.Err != "":
+				out.err = sr.Err
+			case len(sr.Errors) > 0:
+				out.err = strings.Join(sr.Errors, "; ")
+			default:
+				out.rows = resultRows(sr)
 			}
-			var oe *sut.OpError
-			if errors.As(err, &oe) && strings.HasPrefix(oe.Msg, "PANIC") {
-				return fmt.Errorf("the query panicked: %s", firstLines(oe.Msg, 30))
-			}
-			return pt.Inconclusivef("search call failed: %v", err)
+			outs = append(outs, out)
 		}
-		if sr.Err != "" {
-			out.err = sr.Err
-			return nil
-		}
-		if len(sr.Errors) > 0 {
-			out.err = strings.Join(sr.Errors, "; ")
-			return nil
-		}
-		out.rows = resultRows(sr)
 		return nil
 	})
-	return out, err
+	return outs, err
 }
 
 // referencedColumns returns the table columns the chain reads (all of them if a command works on
@@ -382,6 +395,12 @@ func checkL2(cs *l2Case, o *pt.Obs) error {
 		if cmd.stateful() {
 			stateful = true
 		}
+		if cmd.Op == "head" && cmd.Expr != nil {
+			classifyHeadExpr(cmd, o)
+		}
+		if cmd.Op == "streamstats" && limiterName(cmd) == "streamstats_reset" {
+			o.Class("streamstats_reset")
+		}
 	}
 	// Domain: the chain only reads columns that exist in the index. A column that no event has does
 	// not exist at all; what commands make of a field that exists nowhere (null, "no such field", or —
@@ -404,9 +423,20 @@ func checkL2(cs *l2Case, o *pt.Obs) error {
 		}
 	}
 	if knownSkip(cs.Chain, o, true) {
+		// The listed findings concern what comes behind the two-pass command (a sort) or in front of it
+		// (a bottleneck). If the chain cut behind its first two-pass command is touched by none of them,
+		// that part is still asked in its one-pass and its two-pass formulation.
+		if tp, _ := limiterBeforeTwoPass(cs.Chain); tp >= 0 && !knownSkip(cs.Chain[:tp+1], &pt.Obs{}, true) {
+			o.Class("known_finding_case/prefix_still_checked")
+			cut := *cs
+			cut.Chain = cs.Chain[:tp+1]
+			classifyTwoPassL2(&cut, o)
+			return checkOnePassL2(cs, tp, o)
+		}
 		return nil
 	}
 	lt := limitedTop(cs.Chain)
+	tp := classifyTwoPassL2(cs, o)
 	var ref l2Out
 	multiBlock := false
 	for li := range cs.Layouts {
@@ -471,6 +501,9 @@ func checkL2(cs *l2Case, o *pt.Obs) error {
 	if ref.err != "" {
 		return nil
 	}
+	if err := checkOnePassL2(cs, tp, o); err != nil {
+		return err
+	}
 	want, err := runModel(tb, cs.Chain)
 	if err != nil {
 		o.Class("model_abstains")
@@ -495,6 +528,42 @@ func checkL2(cs *l2Case, o *pt.Obs) error {
 	if d != "" {
 		return fmt.Errorf("chain: %s\nthe answer (layout 0: one block) is not what the documented semantics give: %s\ntable:\n%s  engine answer:\n%s  reference answer:\n%s",
 			text, d, rowsText(tb.modelRows()), rowsText(gotN), rowsText(wantN))
+	}
+	return nil
+}
+
+// one pass / two passes: `… | fillnull value=V` ≡ `… | fillnull value=V <every column>`, both asked (cut
+// behind the fillnull, so that no later command hides a difference) of the reference layout (one
+// block: every column of the table exists in it) in one fresh worker
+func checkOnePassL2(cs *l2Case, tp int, o *pt.Obs) error {
+	tb := cs.Table
+	if variant := onePassVariantL2(cs.Chain, tp); variant != nil {
+		ttext, vtext := chainText(cs.Chain[:tp+1]), chainText(variant[:tp+1])
+		outs, err := runLayoutTexts(cs, 0, []string{ttext, vtext})
+		if err != nil {
+			if _, ok := err.(*pt.Inconclusive); ok {
+				return err
+			}
+			return fmt.Errorf("chains: %s\n        %s\nlayout 0 %s\n%v\ntable:\n%s", ttext, vtext, layoutText(cs.Layouts[0], cs.Reverse[0]), err, rowsText(tb.modelRows()))
+		}
+		two, one := outs[0], outs[1]
+		switch {
+		case (two.err != "") != (one.err != "") && hasHead(cs.Chain):
+			o.Class("error_depends_on_early_exit")
+		case (two.err != "") != (one.err != ""):
+			return fmt.Errorf("chain: %s\nand its one-pass formulation %s: one fails and the other does not (layout 0 %s):\n  two-pass: err=%q\n  one-pass: err=%q\ntable:\n%s",
+				ttext, vtext, layoutText(cs.Layouts[0], cs.Reverse[0]), two.err, one.err, rowsText(tb.modelRows()))
+		case two.err != "":
+			o.Class("onepass_variant/engine_error")
+		default:
+			o.Class("onepass_variant_checked")
+			// no sort/stats/top/rare/tail in front of the two-pass command (known finding, excluded above):
+			// the rows are still in the order of the index
+			if d := diffOrdered(canonRows(two.rows), canonRows(one.rows)); d != "" {
+				return fmt.Errorf("chain: %s\nand its one-pass formulation (fillnull over the explicit list of all columns)\n       %s\nanswer differently over the same events in the same layout %s: %s\ntable:\n%s  two-pass answer:\n%s  one-pass answer:\n%s",
+					ttext, vtext, layoutText(cs.Layouts[0], cs.Reverse[0]), d, rowsText(tb.modelRows()), rowsText(two.rows), rowsText(one.rows))
+			}
+		}
 	}
 	return nil
 }
